@@ -61,6 +61,11 @@ func (s *Streamer) binlogPosition() Position {
 //Stream 注册一个处理事务信息函数到Stream中
 func (s *Streamer) Stream(ctx context.Context, sendTransaction SendTransactionFunc) error {
 	s.ctx = ctx
+	// The reader goroutine must not outlive this call: it is released through a
+	// context that is cancelled on every return path. s.ctx stays the caller's
+	// context, which is what Error() consults.
+	streamCtx, stop := context.WithCancel(ctx)
+	defer stop()
 	conn, err := newSlaveConnection(func() (conn dumpConn, e error) {
 		return mysql.NewDumpConn(s.dsn, ctx)
 	})
@@ -71,7 +76,7 @@ func (s *Streamer) Stream(ctx context.Context, sendTransaction SendTransactionFu
 	s.sendTransaction = sendTransaction
 	var events <-chan replication.BinlogEvent
 	var pos Position
-	events, err = conn.startDumpFromBinlogPosition(ctx, s.serverID, s.binlogPosition())
+	events, err = conn.startDumpFromBinlogPosition(streamCtx, s.serverID, s.binlogPosition())
 	if err != nil {
 		return err.msgf("startDumpFromBinlogPosition fail in pos: %+v", s.nowPos)
 	}
